@@ -51,6 +51,25 @@ def ancestors(node):
         node = parent(node)
 
 
+def in_loop_body(node, stop=None):
+    """is node executed repeatedly, i.e. inside the body (or the test of a while) of a loop below `stop`?"""
+    child = node
+    for a in ancestors(node):
+        if a is stop:
+            break
+        if isinstance(a, (ast.For, ast.AsyncFor)) and (any(child is s for s in a.body) or any(child is s for s in a.orelse)):
+            if any(child is s for s in a.body):
+                return True
+        if isinstance(a, ast.While) and not any(child is s for s in a.orelse):
+            return True
+        if isinstance(a, (ast.ListComp, ast.SetComp, ast.DictComp, ast.GeneratorExp)) and child is not a.generators[0].iter \
+                and not (isinstance(child, ast.comprehension) and child is a.generators[0] and False):
+            if child is getattr(a, 'elt', None) or child is getattr(a, 'key', None) or child is getattr(a, 'value', None):
+                return True
+        child = a
+    return False
+
+
 def enclosing_function(node):
     for a in ancestors(node):
         if isinstance(a, FUNC_TYPES + (ast.Lambda,)):
